@@ -6,6 +6,10 @@ pub struct SynPath { _p: () }
 pub struct SynAttribute { _p: () }
 #[verifier::external_body]
 pub struct SynTypePath { _p: () }
+impl Clone for SynTypePath {
+    #[verifier::external_body]
+    fn clone(&self) -> (r: SynTypePath) ensures r == *self { unimplemented!() }
+}
 #[verifier::external_body]
 pub struct TypegenError { _p: () }
 
@@ -36,6 +40,8 @@ impl<V> PMap<V> {
     pub uninterp spec fn view(&self) -> Map<SynTypePath, V>;
     #[verifier::external_body]
     pub fn is_empty(&self) -> (r: bool) ensures r == (forall|k: SynTypePath| !self@.contains_key(k)) { unimplemented!() }
+    #[verifier::external_body]
+    pub fn len(&self) -> (r: usize) ensures r == self@.dom().len(), (r == 0) == (forall|k: SynTypePath| !self@.contains_key(k)) { unimplemented!() }
     /// `HashMap::remove(&k)`: the value that was stored, if any; afterwards the key is absent
     #[verifier::external_body]
     pub fn remove(&mut self, k: &SynTypePath) -> (r: Option<V>)
@@ -91,6 +97,10 @@ impl<V> IdMap<V> {
     #[verifier::external_body]
     pub fn contains_key(&self, k: &u32) -> (r: bool) ensures r == self@.contains_key(*k) { unimplemented!() }
     #[verifier::external_body]
+    pub fn len(&self) -> (r: usize) ensures r == self@.dom().len() { unimplemented!() }
+    #[verifier::external_body]
+    pub fn is_empty(&self) -> (r: bool) ensures r == (forall|k: u32| !self@.contains_key(k)) { unimplemented!() }
+    #[verifier::external_body]
     pub fn entry_or_default(&mut self, k: u32) -> (r: &mut V)
         ensures
             *r == (if old(self)@.contains_key(k) { old(self)@[k] } else { default_of::<V>() }),
@@ -136,6 +146,26 @@ pub fn hashset_into_iter(s: HashSet<u32>) -> (r: U32SetIntoIter)
 /// `for &id in &hash_set` = `hash_set.iter()` + copies: every member exactly once, the set is left as it is
 #[verifier::external_body]
 pub fn hashset_iter_copied(s: &HashSet<u32>) -> (r: U32SetIntoIter)
+    ensures r.pos() == 0, forall|x: u32| s@.contains(x) <==> r.seq().contains(x)
+{ unimplemented!() }
+
+/// `for id in hash_set.iter()`: references to every member exactly once
+#[verifier::external_body]
+pub struct U32SetRefIter<'a> { _p: core::marker::PhantomData<&'a u32> }
+impl<'a> U32SetRefIter<'a> {
+    pub uninterp spec fn seq(&self) -> Seq<u32>;
+    pub uninterp spec fn pos(&self) -> int;
+    #[verifier::external_body]
+    pub fn next(&mut self) -> (r: Option<&'a u32>)
+        ensures
+            final(self).seq() == old(self).seq(),
+            0 <= old(self).pos() <= old(self).seq().len(),
+            old(self).pos() < old(self).seq().len() ==> r is Some && *(r->0) == old(self).seq()[old(self).pos()] && final(self).pos() == old(self).pos() + 1,
+            old(self).pos() >= old(self).seq().len() ==> r is None && final(self).pos() == old(self).pos(),
+    { unimplemented!() }
+}
+#[verifier::external_body]
+pub fn hashset_iter_refs<'a>(s: &'a HashSet<u32>) -> (r: U32SetRefIter<'a>)
     ensures r.pos() == 0, forall|x: u32| s@.contains(x) <==> r.seq().contains(x)
 { unimplemented!() }
 
